@@ -1,5 +1,5 @@
 import hv
-from hv import runner, gen
+from hv import runner, gen, e3, e3mon
 from hv.props import _common
 
 PID = 'C05'
@@ -8,11 +8,15 @@ PID = 'C05'
 def run(tier):
     run = runner.Run(PID, tier, 'model_checking',
                      'every generated form program of the tier bound x every input environment x every relevant rank '
-                     'permutation, executed on the real Solver; distinct = outcome classes observed')
+                     'permutation, executed on the real Solver (E2a); plus every return within d deviations of the base '
+                     'returns of 2021-2023 (E3 prompt tree; quick d<=1 on 5 bases/year, thorough d<=2 on all); '
+                     'distinct = outcome classes observed per engine/base')
     gen.explore(run, PID, tier)
+    e3.explore_all(run, PID, tier)
     return run.finish()
 
 
 def replay(case):
-    r = _common.gen_replay(PID)(case)
-    return r
+    if case.get('engine') == 'e3':
+        return _common.e3_replay(PID, case)
+    return _common.gen_replay(PID)(case)
